@@ -38,6 +38,8 @@ ATTACKS = [  # (cfg, guard removed)
     ("Sched_attack_sync_noResetInFetch.cfg", "sync committee: Reset(period) before Add in fetchAndProcessDuties"),
     ("Sched_attack_sync_noWindow.cfg", "sync committee: shouldExecute slot window"),
     ("Sched_attack_sync_lossyAdd.cfg", "sync committee: SyncCommitteeDuties.Add keeps every validator"),
+    ("Sched_attack_prop_resetBeforeFetch.cfg", "proposer: the epoch is reset only AFTER a successful fetch (a failed re-fetch keeps the duties)"),
+    ("Sched_attack_sync_resetBeforeFetch.cfg", "sync committee: the period is reset only AFTER a successful fetch"),
 ]
 
 OWN = {  # parameters of the driver's own executions; must match spec/SchedTrace_<role>.cfg
@@ -56,7 +58,7 @@ def _tier(tier):
                     java="-Xmx2g -XX:ParallelGCThreads=2")
     return dict(mc=[c % r for c in ("Sched_%s_thorough2.cfg", "Sched_%s_thorough.cfg", "Sched_%s_thorough3.cfg") for r in ROLES
                     if c % r != "Sched_sync_thorough2.cfg"] + ["Sched_att_spe6.cfg", "Sched_sync_spe6.cfg"],
-                big={}, workers=2, par=4, stop_after=540, leaves=1500, extra_edges=1500, sim=(600, 90), own_runs=600,
+                big={}, workers=2, par=4, stop_after=780, leaves=1500, extra_edges=1500, sim=(600, 90), own_runs=600,
                 java="-Xmx8g -XX:ParallelGCThreads=2")
 
 
@@ -330,8 +332,10 @@ def _run(tier, seed, T, ex, t0):
         "beacon-node assignments change only at reorg notices (truth), fetch failures are injected per tick and key",
         "the BeaconNetwork arithmetic (epoch / period of a slot, LastSlotOfSyncPeriod) is re-implemented by the virtual "
         "network with SPE-slot epochs and EPP-epoch periods; syncCommitteePreparationEpochs = 2 is fixed by the code",
-        "storeValid reading of 'fetched successfully before that tick' (DESIGN section 5 C16): no dispatch is demanded "
-        "after a reorg / indices change / failed fetch until the key is fetched again",
+        "storeValid reading of 'fetched successfully before that tick' (DESIGN section 5 C16), per role and event: a "
+        "dispatch is not demanded only after an event at which the pinned handler itself resets the store before a "
+        "re-fetch succeeds (attester: reorg, indices change; proposer: current-root reorg; sync: current-root reorg near "
+        "the period end); a failed fetch never excuses anything",
         "exhaustive results hold for the stated constants (4-slot epochs, 3-4 epochs, <= 2 validators, bounded event budgets)",
     ], len(verdict.violations))
     return rc
